@@ -6,6 +6,8 @@ from sa import report
 from sa import rules_emit as RE, rules_extra as RX, rules_r6b as R6B, rules_r10 as R10, rules_repr as RR2
 from sa import rules_grammar as RG, rules_emitgrammar as REG, rules_state as RS, rules_order as RO
 
+from sa import rules_r12 as R12
+
 
 def run(ctx, repo):
     ctx.explanation = (
@@ -48,6 +50,7 @@ def run(ctx, repo):
     ctx.call(R6B.r_no_lookahead_at_doc_end, repo)
     ctx.call(RO.r_api_generators, repo)
 
+    ctx.call(R12.r_component_methods_disjoint, repo)
 
 if __name__ == '__main__':
     sys.exit(report.main('C12', 'other', run))
